@@ -435,6 +435,9 @@ pub fn run_schedule(env: &WorkerEnv, sys: &System, opts: &RunOpts) -> Exec {
     let mut current: Option<usize> = None;
     let mut preemptions = 0u32;
     let mut lock_holder: Option<usize> = None;
+    // a lock waiter whose retry just failed stays disabled until some OTHER thread has taken a step
+    // (the holder heuristic can be wrong when the code under test uses more than one lock inode)
+    let mut retry_failed: Vec<bool> = vec![false; n];
     let mut op_index: Vec<Vec<usize>> = vec![Vec::new(); n]; // per client: indices into ex.ops
     let mut step_no = 0usize;
     loop {
@@ -443,10 +446,10 @@ pub fn run_schedule(env: &WorkerEnv, sys: &System, opts: &RunOpts) -> Exec {
         if alive.is_empty() {
             break;
         }
-        let mut enabled: Vec<usize> = alive.iter().copied().filter(|&i| srv[i].parked != Parked::Blocked || lock_holder.is_none() || lock_holder == Some(i)).collect();
+        let mut enabled: Vec<usize> = alive.iter().copied().filter(|&i| srv[i].parked != Parked::Blocked || (!retry_failed[i] && (lock_holder.is_none() || lock_holder == Some(i)))).collect();
         if enabled.is_empty() {
             // only lock waiters are left: let them retry once (the holder may have released by closing)
-            if lock_holder.is_some() {
+            if lock_holder.is_some() && alive.iter().any(|&i| !retry_failed[i]) {
                 lock_holder = None;
                 continue;
             }
@@ -563,8 +566,13 @@ pub fn run_schedule(env: &WorkerEnv, sys: &System, opts: &RunOpts) -> Exec {
             Parked::Exited => label = format!("{t}: (exited)"),
         }
         ex.labels.push(label);
+        let was_blocked = s.parked == Parked::Blocked;
         s.go();
         let dones = s.wait_parked();
+        let still_blocked = was_blocked && s.parked == Parked::Blocked;
+        for (u, f) in retry_failed.iter_mut().enumerate() {
+            *f = u == t && still_blocked;
+        }
         for d in &dones {
             if d.starts_with("DONE flock 0") {
                 lock_holder = Some(t);
@@ -607,7 +615,7 @@ pub fn run_schedule(env: &WorkerEnv, sys: &System, opts: &RunOpts) -> Exec {
             }
         }
         if step_no > 5000 {
-            machinery_error("execution exceeded 5000 steps");
+            machinery_error(format!("execution exceeded 5000 steps; last steps: {:?}", ex.labels.iter().rev().take(24).collect::<Vec<_>>()));
         }
     }
     for (i, s) in srv.iter_mut().enumerate() {
